@@ -33,11 +33,13 @@ def check(y, miss, llas, p, rep, name, lc=None):
     mids = [math.pow(10, x) for x in lamids]
     j = int(np.argmin([abs(lopt - mm) / mm for mm in mids]))
     if abs(lopt - mids[j]) > 1e-9 * mids[j]:
-        rep.violation(name + ".midpoint", name.split(".")[0], case, f"lopt={lopt} is not the log10-midpoint of two consecutive srange entries (nearest {mids[j]})")
+        rep.violation(name + ".midpoint", name.split(".")[0], case, f"lopt={lopt} is not the log10-midpoint of two consecutive srange entries (nearest {mids[j]})",
+                      tags=["lc-nan"] if (lc is not None and lc != lc) else [])
         return
     k = first_strict_min(v)
     if j != k and not abs(v[j] - v[k]) <= 1e-9 * max(1.0, abs(v[k])):
-        rep.violation(name + ".argmin", name.split(".")[0], case, f"selected grid cell {j} (v={v[j]:.6g}) but the V-curve minimum is at {k} (v={v[k]:.6g})")
+        rep.violation(name + ".argmin", name.split(".")[0], case, f"selected grid cell {j} (v={v[j]:.6g}) but the V-curve minimum is at {k} (v={v[k]:.6g})",
+                      tags=["lc-nan"] if (lc is not None and lc != lc) else [])
         return
     # self-consistency: band is exactly what the fixed-lambda smoother returns at the reported lambda
     fixed = ws2dgu(yy, lopt, ND) if p is None else ws2dpgu(yy, lopt, ND, p)
